@@ -24,7 +24,7 @@ MS1 = {'bad': 'x)', 'good': 'section.sn', 'sig': 'p.sig{-- ${who}}'}
 OBJS = ['m1', 'm2', 'm3', 'm4', 'm5', 'm6', 'm7', 'm8', 'm9', 'm10', 'm11', 's1', 's2', 's3', 's4', 's5', 's6', 's7', 's8', 's9', 's10']
 
 ABBR = {
-    'markup': {'ok': 'ul>li.item$*2>a', 'wrap': 'ul>li*', 'badparse': 'ul>li)', 'badsnippet': 'ul>bad*', 'bem': 'div.b>.-e_m+p.b__x', 'var': '!>sig'},
+    'markup': {'ok': 'ul>li.item$*2>a', 'wrap': 'ul>li*', 'badparse': 'ul>li)', 'badsnippet': 'ul>bad*', 'bem': 'div.b>.-e_m+p.b__x', 'var': '!>sig', 'empty': ''},
     'css': {'num': 'foo', 'tab': 'tab', 'plain': 'p10+m0-a', 'raw': '@k', 'fnarg': 'trf:sc(2)', 'fnbare': 'trf:sc', 'alias': 'p10r+m5v', 'badparse': 'p{'},
 }
 
